@@ -39,8 +39,12 @@ Fixpoint report (base : N) (cases : list (input * observation)) : list (N * N * 
   | (i, o) :: r =>
       (match first_diff 0 (model_run i) o with Some p => [(base, 0, p)] | None => [] end) ++
       map (fun e => (base, fst e, snd e)) (spec_failures_prefix i o) ++
+      (* the expectation above takes the device table (who is known, with which locations, until when) from the
+         previous observation; what makes that table right is C03's statement, so its clauses are evaluated on the
+         same observations here (numbered 11..15; proved of the model as C03_spec_holds_prefix) *)
+      map (fun e => (base, 10 + fst e, snd e)) (C03.Run.spec_failures_prefix i o) ++
       report (N.succ base) r
   end.
 
 Definition replay (c : input * observation) :=
-  (model_run (fst c), dom (fst c), spec_failures_prefix (fst c) (snd c)).
+  (model_run (fst c), dom (fst c), spec_failures_prefix (fst c) (snd c), C03.Run.spec_failures_prefix (fst c) (snd c)).
